@@ -152,6 +152,21 @@ structure Foreign where
   ext : Int × Int → BBox
   srcDisjoint : Int × Int → Int × Int → Bool
 
+/-- the arithmetic of `GeoBoxBase.footprint(crs, buffer, npoints)` (geobox.py:233-250) for an
+axis-aligned raster, up to shapely / pyproj: the distance handed to `ext.buffer` – `buffer` pixels of
+the *coarser* axis, `max(|res.x|, |res.y|)`, also on mirrored rasters – and the densification
+resolution handed to `to_crs` – the longer side of the extent's bounding box over `npoints`.
+`buffer = 0` skips the buffering. -/
+def footprintParams (t : TGB) (buffer npoints : Rat) : Option Rat × Rat :=
+  let px := max (rabs t.W.a) (rabs t.W.e)
+  let span := max (rabs t.W.a * t.g.nx) (rabs t.W.e * t.g.ny)
+  (if buffer = 0 then none else some (buffer * px), span / npoints)
+
+/-- the different-CRS branch of `grid_intersect` pads both rasters by 2 pixels and densifies with the
+default 100 points per side: `src.base.footprint(4326, 2) & self.base.footprint(4326, 2)` -/
+def crossFootprintParams (dst src : TGB) : (Option Rat × Rat) × (Option Rat × Rat) :=
+  (footprintParams src 2 100, footprintParams dst 2 100)
+
 /-- `GeoboxTiles.grid_intersect(src)` -/
 def gridIntersect (dst src : TGB) (ttol stol tol sttol : Rat) (fr : Foreign) :
     Res (List ((Int × Int) × List (Int × Int))) := do
